@@ -392,6 +392,136 @@ OBLIGATIONS.append(Ob("newton_refinement_loop", ob_newton, tier="quick", family=
 OBLIGATIONS.append(Ob("opoint_dedupe_and_primary", _mk_tail(0, 2), tier="quick", family="selection", encodes=["hypnotoad.utils.critical:find_critical"],
                       desc="duplicate O-points collapse (squared distance < 1e-5); the primary O-point is nearest the domain centre",
                       bounds="2 O candidates, no X candidates"))
+def _mk_saddle(min_top, iterations):
+    """Equilibrium.findSaddlePoint, the real method on a stub self: the 1-d searches return an arbitrary point of the segment they are given
+    at which the derivative of psi along the segment vanishes (their contract); psi is a general quadratic with symbolic coefficients"""
+    from fractions import Fraction
+    import hypnotoad.core.equilibrium as eqm
+
+    def body(env):
+        sym = env.mode == "sym"
+        env.logic = "QF_NRA"
+        c = [env.real("c%d" % k, lo=-9, hi=9) for k in range(6)]
+        R1, Z1 = env.real("R1", lo=1, hi=9), env.real("Z1", lo=-9, hi=9)
+        a = env.real("a", lo=Fraction(1, 100), hi=2)
+        ux, uz = (Fraction(3, 5), Fraction(4, 5)) if sym else (0.6, 0.8)
+        p1 = Point2D(R1, Z1)
+        p2 = Point2D(R1 + a * ux, Z1 + a * uz)
+        if sym:
+            env.sqrt_hints = list(getattr(env, "sqrt_hints", [])) + [core.lift_real(a)]
+
+        def grad(q):
+            return c[1] + 2 * c[3] * q.R + c[4] * q.Z, c[2] + c[4] * q.R + 2 * c[5] * q.Z
+
+        edges, searches = [], []
+
+        class Self:
+            pass
+
+        def on_segment(name, pos1, pos2, interior):
+            s = env.real(name, lo=0, hi=1)
+            if interior:
+                env.assume((s > 0) & (s < 1) if sym else 0 < s < 1, "extremum not at an end of the edge")
+            q = pos1 + s * (pos2 - pos1)
+            gR, gZ = grad(q)
+            d = pos2 - pos1
+            dd = gR * d.R + gZ * d.Z
+            env.assume(SymBool(core.lift_real(dd) == 0) if sym else abs(dd) < 1e-9, "contract of the 1-d search: stationary along the segment")
+            return q
+
+        def findExtremum_1d(pos1, pos2, rtol=1.0e-5, atol=1.0e-14):
+            k = len(edges)
+            edges.append((pos1, pos2))
+            is_min = [not min_top, min_top, not min_top, min_top][k]   # left, top, right, bottom
+            return on_segment("s_edge%d" % k, pos1, pos2, True), is_min
+
+        def mk(kind):
+            def search(pos1, pos2, atol=1.0e-14):
+                q = on_segment("s_search%d" % len(searches), pos1, pos2, False)
+                searches.append((kind, pos1, pos2, q, atol))
+                return q
+            return search
+
+        me = Self()
+        me.findExtremum_1d = findExtremum_1d
+        me.findMinimum_1d, me.findMaximum_1d = mk("min"), mk("max")
+        dist_calls = []
+        real_cd = eqm.calc_distance
+
+        def calc_distance(q1, q2):
+            if not dist_calls:
+                dist_calls.append(None)
+                return real_cd(q1, q2)          # the side of the square: decided with the perfect-square hint a
+            k = len(dist_calls)
+            dist_calls.append((q1, q2))
+            d2 = (q2.R - q1.R) ** 2 + (q2.Z - q1.Z) ** 2
+            # loop test number k (k = 1 is the test before the first iteration): the harness fixes the number of iterations
+            if k <= iterations:
+                return 1.0                      # > atol
+            if sym:
+                env.assume(SymBool(core.lift_real(d2) == 0), "idealised termination: the two extrema coincide")
+            else:
+                env.assume(d2 < 1e-16, "idealised termination: the two extrema coincide")
+            return 0.0
+
+        fn = types.FunctionType(eqm.Equilibrium.findSaddlePoint.__code__, dict(eqm.__dict__, calc_distance=calc_distance, print=lambda *a, **k: None),
+                                "findSaddlePoint", eqm.Equilibrium.findSaddlePoint.__defaults__)
+        res = fn(me, p1, p2)
+        env.witness("returned")
+        env.claim("four_edges_searched", len(edges) == 4)
+        if len(edges) != 4:
+            return
+        P1, P2 = edges[0]
+        P3, P4 = edges[2]
+        # the square p1 p2 p3 p4 with p3, p4 to the right of p1->p2
+        e1 = (ux, uz)
+        e2 = (uz, -ux)
+        for nm, q, ref in (("p3", P3, (p2.R + a * e2[0], p2.Z + a * e2[1])), ("p4", P4, (p1.R + a * e2[0], p1.Z + a * e2[1]))):
+            env.claim_eq("box_corner_%s_R_right_of_p1p2" % nm, q.R, ref[0])
+            env.claim_eq("box_corner_%s_Z_right_of_p1p2" % nm, q.Z, ref[1])
+        env.claim("edges_are_p1p2_p2p3_p3p4_p4p1", (edges[0][0] is p1) and (edges[0][1] is p2) and (edges[1][0] is p2) and (edges[3][1] is p1))
+        env.claim("searches_per_iteration", len(searches) == 2 * iterations)
+        for k, (kind, q1, q2, q, at) in enumerate(searches):
+            vert = k % 2 == 0
+            # saddle: minimum along the top edge (direction e2) <=> maximum along e1
+            want = ("max" if min_top else "min") if vert else ("min" if min_top else "max")
+            env.claim("search%d_kind_matches_the_edge_extrema" % k, kind == want)
+            # end points lie on opposite edges of the box
+            def coord(pt, e):
+                return (pt.R - p1.R) * e[0] + (pt.Z - p1.Z) * e[1]
+            if vert:
+                env.claim_eq("search%d_starts_on_bottom_edge" % k, coord(q1, e1), 0)
+                env.claim_eq("search%d_ends_on_top_edge" % k, coord(q2, e1), a)
+                if k >= 2:
+                    env.claim_eq("search%d_vertical_line_through_previous_horizontal_extremum" % k, coord(q1, e2), coord(searches[k - 1][3], e2))
+                    env.claim_eq("search%d_line_is_vertical" % k, coord(q1, e2), coord(q2, e2))
+            else:
+                env.claim_eq("search%d_starts_on_left_edge" % k, coord(q1, e2), 0)
+                env.claim_eq("search%d_ends_on_right_edge" % k, coord(q2, e2), a)
+                env.claim_eq("search%d_horizontal_line_through_previous_vertical_extremum" % k, coord(q1, e1), coord(searches[k - 1][3], e1))
+                env.claim_eq("search%d_line_is_horizontal" % k, coord(q1, e1), coord(q2, e1))
+            env.claim("search%d_tolerance_at_most_half_atol" % k, at <= 0.5 * 2.0e-8 + 1e-30)
+        ev, eh = searches[-2][3], searches[-1][3]
+        env.claim_eq("result_R_is_midpoint_of_last_extrema", res.R, (ev.R + eh.R) / 2)
+        env.claim_eq("result_Z_is_midpoint_of_last_extrema", res.Z, (ev.Z + eh.Z) / 2)
+        # (that grad(psi)=0 where the two extrema coincide follows from the two contracts along independent directions; as a solver query it came back
+        #  `unknown` under load (nlsat), so it is not claimed)
+    return body
+
+
+for _mt in (True, False):
+    for _it in (1,):   # two iterations: the reachability query alone exceeds 300 s of nlsat time (not registered)
+        OBLIGATIONS.append(Ob("find_saddle_point_mintop%d_iter%d" % (int(_mt), _it), _mk_saddle(_mt, _it), tier="quick" if _it == 1 else "thorough", family="findSaddlePoint",
+                              encodes=["hypnotoad.core.equilibrium:Equilibrium.findSaddlePoint"],
+                              desc="isolated X-point search: the box lies to the right of p1->p2; every 1-d search runs between opposite edges through the previous extremum, "
+                                   "looks for the kind of extremum the edge extrema imply, with tolerance atol/2; the result is the midpoint of the last two extrema",
+                              stubs=["findExtremum_1d/findMinimum_1d/findMaximum_1d -> an arbitrary point of the given segment where the derivative of psi along the segment vanishes "
+                                     "(contract of minimize_scalar at an interior extremum; convergence of minimize_scalar is not decided)",
+                                     "calc_distance in the loop test -> fixes the number of iterations; at exit the two extrema are assumed to coincide (atol -> 0)"],
+                              bounds="general quadratic psi (6 symbolic coefficients), box side a in [0.01,2] along the fixed rational direction (3/5,4/5), %d iteration(s)" % _it,
+                              max_paths=50, wall_s=300))
+
+
 OBLIGATIONS.append(Ob("xpoint_dedupe_and_order", _mk_tail(2, 1, monotone_lines=True), tier="quick", family="selection", encodes=["hypnotoad.utils.critical:find_critical"],
                       desc="X-points that pass the O-X monotonicity test: duplicates collapse, the rest are ordered by (psi-psi_axis)^2",
                       stubs=["spline values on the O-X line -> symbols (assumed monotone)", "linspace(num=50) -> 3 samples"], bounds="1 O-point, 2 X candidates", max_paths=3000, wall_s=400))
